@@ -1,15 +1,20 @@
 #!/usr/bin/env python3
-"""Run every claimed check on each behaviour-preserving refactoring patch (/tmp/ref_<G>/_ref/patch<i>.diff);
-any exit 1 is a false alarm to fix, exit 2 is fail-closed (acceptable but noted).  Archives the patches under
-/verif/seeded/refactors/<G>-<i>/ with the verdicts.  Development tool."""
+"""Run every claimed check on each behaviour-preserving refactoring patch (/tmp/ref_<G>/_ref/patch<i>.diff, or the
+archived copy under /verif/seeded/refactors/<G>-<i>/); any exit 1 is a false alarm to fix, exit 2 is fail-closed
+(acceptable but noted).  Archives new patches with the verdicts.  Development tool (8 patches in parallel)."""
 import json, os, shutil, subprocess, sys, glob, tempfile
+from concurrent.futures import ThreadPoolExecutor
 sys.path.insert(0, '/verif')
 from jstat.selftest.run import copy_tree
 claimed = [c["property_id"] for c in json.load(open('/verif/MANIFEST.json'))["checks"]]
-groups = sys.argv[1:] or ['A', 'B', 'C']
+groups = sys.argv[1:] or sorted({os.path.basename(d).split('-')[0] for d in glob.glob('/verif/seeded/refactors/*-*')})
+jobs = []
 for g in groups:
     for pf in sorted(glob.glob(f'/tmp/ref_{g}/_ref/patch*.diff')) or sorted(glob.glob(f'/verif/seeded/refactors/{g}-*/patch.diff')):
-        i = ''.join(ch for ch in os.path.basename(os.path.dirname(pf) if 'seeded' in pf else pf) if ch.isdigit()) if 'seeded' not in pf else os.path.basename(os.path.dirname(pf)).split('-')[1]
+        if 'seeded' in pf:
+            i = os.path.basename(os.path.dirname(pf)).split('-')[1]
+        else:
+            i = ''.join(ch for ch in os.path.basename(pf) if ch.isdigit())
         out = f'/verif/seeded/refactors/{g}-{i}'
         os.makedirs(out, exist_ok=True)
         if 'seeded' not in pf:
@@ -17,22 +22,35 @@ for g in groups:
             nf = pf.replace('patch', 'note').replace('.diff', '.txt')
             if os.path.exists(nf):
                 shutil.copy(nf, out + '/note.txt')
-        tmp = tempfile.mkdtemp(prefix='jstat_ref_')
-        try:
-            copy_tree(tmp)
-            r = subprocess.run(['patch', '-p1', '-s', '-d', tmp], stdin=open(out + '/patch.diff'), capture_output=True, text=True)
-            if r.returncode != 0:
-                print(g, i, 'patch failed', r.stdout[-200:]); continue
-            env = dict(os.environ, JSTAT_REPO=tmp, JSTAT_EVIDENCE_DIR=tmp + '/ev', PYTHONPATH='/verif', JSTAT_REPO_IS_VARIANT='1')
-            bad = {}
-            for c in claimed:
-                rr = subprocess.run(['/venv/bin/python', '-m', 'jstat', c, 'quick'], env=env, cwd='/verif', capture_output=True, text=True)
-                if rr.returncode != 0:
-                    bad[c] = {"exit": rr.returncode, "reports": [l.strip()[:400] for l in rr.stdout.splitlines() if l.startswith('  ') or l.startswith('ANALYSIS')][:4]}
-            json.dump({"kind": "behaviour-preserving refactoring (independent sub-agent)", "non_zero_checks": bad}, open(out + '/meta.json', 'w'), indent=1)
-            print(g, i, 'SILENT' if not bad else {c: v['exit'] for c, v in bad.items()})
-            for c, v in bad.items():
-                for l in v['reports'][:2]:
-                    print('      ', c, l[:300])
-        finally:
-            shutil.rmtree(tmp, ignore_errors=True)
+        jobs.append((g, i, out))
+
+
+def one(job):
+    g, i, out = job
+    tmp = tempfile.mkdtemp(prefix='jstat_ref_')
+    lines = []
+    try:
+        copy_tree(tmp)
+        r = subprocess.run(['patch', '-p1', '-s', '-d', tmp], stdin=open(out + '/patch.diff'), capture_output=True, text=True)
+        if r.returncode != 0:
+            return [f'{g} {i} patch failed {r.stdout[-200:]}']
+        env = dict(os.environ, JSTAT_REPO=tmp, JSTAT_EVIDENCE_DIR=tmp + '/ev', PYTHONPATH='/verif', JSTAT_REPO_IS_VARIANT='1')
+        bad = {}
+        for c in claimed:
+            rr = subprocess.run(['/venv/bin/python', '-m', 'jstat', c, 'quick'], env=env, cwd='/verif', capture_output=True, text=True)
+            if rr.returncode != 0:
+                bad[c] = {"exit": rr.returncode, "reports": [l.strip()[:400] for l in rr.stdout.splitlines() if l.startswith('  ') or l.startswith('ANALYSIS')][:4]}
+        json.dump({"kind": "behaviour-preserving refactoring (independent sub-agent)", "non_zero_checks": bad}, open(out + '/meta.json', 'w'), indent=1)
+        lines.append(f"{g} {i} " + ('SILENT' if not bad else str({c: v['exit'] for c, v in bad.items()})))
+        for c, v in bad.items():
+            for l in v['reports'][:2]:
+                lines.append(f'       {c} {l[:300]}')
+        return lines
+    finally:
+        shutil.rmtree(tmp, ignore_errors=True)
+
+
+with ThreadPoolExecutor(8) as ex:
+    for lines in ex.map(one, jobs):
+        for l in lines:
+            print(l, flush=True)
